@@ -466,6 +466,27 @@ def padding_witness(chk, tools):
                     'an eightbyte of padding only gets an INTEGER register from c2m and none from gcc: ' + PADDING_WITNESS)
 
 
+def sanitizer_part(chk, tools):
+    """thorough: c2m built with ASan/UBSan compiles (not runs) a layout TU and a signature TU: out-of-bounds
+    accesses in the layout/classification code (e.g. of qword_types[]) are findings"""
+    exe = vlib.build_harness('c08_c2m', [os.path.join(vlib.REPO, 'c2mir', 'c2mir-driver.c')], variant='asan',
+                             units=('mir', 'mir-gen', 'c2mir'))
+    san = os.path.join(tools.dir, 'c2m-asan')
+    shutil.copy(exe, san)
+    env = dict(ASAN_OPTIONS='detect_leaks=0:abort_on_error=0', UBSAN_OPTIONS='print_stacktrace=1')
+    decls = gen_decls(chk, 400, 'asan-layout')
+    small = gen_small(chk, 400, 'asan-sig')
+    for name, text in (('lay', G.layout_tu(list(enumerate(decls)))), ('sig', G.sig_tu(list(enumerate(small))))):
+        src = tools.path('asan-%s.c' % name)
+        open(src, 'w').write(text)
+        rc, out, err = vlib.sh([san, src, '-S', '-o', src[:-2] + '.mir'], timeout=900, cwd=tools.dir, env=env)
+        chk.count('asan ' + name, n=400)
+        if rc != 0 or 'ERROR: AddressSanitizer' in err or 'runtime error' in err:
+            chk.finding('asan:' + name, dict(kind='asan', tu=name, rc=rc, err=err[-1500:]),
+                        'c2m (ASan/UBSan build) reports an error while compiling the %s probe TU: %s' % (name, err[-300:]))
+    chk.log('sanitizer build: layout and signature TUs compiled')
+
+
 def run(chk):
     quick = chk.tier == 'quick'
     r = chk.prove()
@@ -500,6 +521,8 @@ def run(chk):
         pb, pper = (1, 180) if quick else (12, 400)
         for b in range(pb):
             passing_part(chk, tools, gen_small(chk, pper, 'passing%d' % b), 'passing batch %d' % b)
+        if not quick:
+            sanitizer_part(chk, tools)
         chk.cov['rule'] = ('each generated declaration is compiled into one probe TU run by c2m (-ei) and by gcc; sizeof, '
                            '_Alignof, every named member offset/size and every bit-field position (found by storing all-ones '
                            'into a zeroed object) are compared with the extracted Coq models (c2mir model vs c2m, SysV model vs gcc) '
